@@ -10,6 +10,13 @@ C14 bounded tier: reversal and reverse complement.
     2-byte strings and on random byte strings, and equality with the base-by-base model on random strings
   * streaming: for generated FASTA files x scaffolds x buffer sizes x line lengths, the record streamed for
     scaffold.reverse() == the model reverse complement of the record streamed for the scaffold.
+    The same on LONG inputs: byte strings and minus-strand fragments whose lengths sit around powers of two and
+    typical block / buffer sizes (2**12+1, 2**16-1, 2**16, 2**16+1, 2**16+17, 2**17+5, 250001, 2**20+3, ...; thorough:
+    2**k + {-1,0,1,17} for k = 10..22, 10**k+1, 2**24+5, random lengths), non-periodic content generated from
+    (length, seed): length preserved, position-wise complement of the reversed input (whole string against the
+    independent table, and base by base at the ends and around every 2**k position), twice == identity, same through
+    revcomp_bytes_io and FastaSeq.rev_comp; and a FASTA record of such a length streamed through scaffolds with long
+    minus-strand fragments with buffers larger than 2**16 (the default 250000, 2**16+17, record length +-1).
     Scaffolds with a strand-0 (unknown) fragment are included; a mismatch there is tagged with the known class
     "strand0-reversal" only if the same scaffold without its strand-0 rows passes.
   * OverlapResult.to_scaffold (the other place a reversal is made: "minus-strand baits reverse the fused overlap
@@ -175,6 +182,118 @@ def check_involution(s):
     return msgs
 
 
+# ----------------------------------------------------------------------------------------------------------
+# long inputs (lengths around powers of two and typical block / buffer sizes)
+
+_LONG_ALPHABET = b"ACGTUacgtuRYMKSWHBVDNrymkswhbvdn-*Xx"
+_TO_ALPHABET = bytes(_LONG_ALPHABET[i % len(_LONG_ALPHABET)] for i in range(256))
+_COMPLEMENT_TABLE = bytes(G.COMPLEMENT)
+
+LONG_QUICK = [2**12 + 1, 2**16 - 1, 2**16, 2**16 + 1, 2**16 + 17, 2**17 + 5, 250_001, 2**20 + 3]
+
+
+def long_lengths(quick, rng):
+    if quick:
+        return list(LONG_QUICK)
+    out = set(LONG_QUICK)
+    for k in range(10, 23):
+        out.update(2**k + d for d in (-1, 0, 1, 17))
+    out.update(10**k + 1 for k in (3, 4, 5, 6))
+    out.update((8192 + 5, 3 * 2**16 + 1, 5 * 2**16 - 2, 250_000, 500_003, 2**24 + 5))
+    out.update(rng.randint(2**16 + 1, 5 * 2**16) for _ in range(12))
+    return sorted(out)
+
+
+def long_bytes(n, seed, alphabet):
+    """non-periodic content, a function of (n, seed, alphabet) only: "bytes" = all 256 values, "iupac" = mixed-case
+    IUPAC letters, U and a few non-IUPAC symbols (usable as FASTA residues)"""
+    raw = random.Random(seed * 1_000_003 + n).randbytes(n)
+    return raw if alphabet == "bytes" else raw.translate(_TO_ALPHABET)
+
+
+def probe_positions(n):
+    """the ends and the neighbourhood of every power of two (from either end)"""
+    pos = set(range(min(n, 70))) | set(range(max(0, n - 70), n))
+    k = 1
+    while k < n:
+        for c in (k, n - k):
+            pos.update(i for i in range(c - 3, c + 4) if 0 <= i < n)
+        k *= 2
+    return sorted(pos)
+
+
+def compare_revcomp(what, got, s):
+    """got against the position-wise complement of the reversed input s -> message or None"""
+    n = len(s)
+    if len(got) != n:
+        return f"{what} of {n} bytes returned {len(got)} bytes: length not preserved ({n - len(got)} missing)"
+    for i in probe_positions(n):
+        if got[i] != G.COMPLEMENT[s[n - 1 - i]]:
+            return f"{what} of {n} bytes: byte {i + 1} of the result is {got[i]}, the complement of byte {n - i} of the input is {G.COMPLEMENT[s[n - 1 - i]]}"
+    want = s.translate(_COMPLEMENT_TABLE)[::-1]
+    if got != want:
+        return f"{what} of {n} bytes is not the position-wise complement of the reversed input; {first_difference(got, want)}"
+    return None
+
+
+def check_long_bytes(n, seed, alphabet):
+    from tola.fasta.simple import FastaSeq
+
+    s = long_bytes(n, seed, alphabet)
+    try:
+        once = reverse_complement(s)
+        twice = reverse_complement(once)
+        via_io = revcomp_bytes_io(io.BytesIO(s)).getvalue()
+        io_twice = revcomp_bytes_io(revcomp_bytes_io(io.BytesIO(s))).getvalue()
+        via_seq = FastaSeq("x", s).rev_comp().sequence
+    except Exception as e:  # noqa: BLE001
+        return [f"reverse complement of {n} bytes raised {e!r}"]
+    msgs = []
+    for what, got in (("reverse_complement", once), ("revcomp_bytes_io", via_io), ("FastaSeq.rev_comp", via_seq)):
+        m = compare_revcomp(what, got, s)
+        if m:
+            msgs.append(m)
+    if twice != s:
+        msgs.append(f"reverse_complement twice of {n} bytes gives {len(twice)} bytes, not the input back; {first_difference(twice, s)}")
+    if io_twice != s:
+        msgs.append(f"revcomp_bytes_io twice of {n} bytes gives {len(io_twice)} bytes, not the input back; {first_difference(io_twice, s)}")
+    return msgs
+
+
+def long_stream_rows(n):
+    """scaffolds over one record "L" of n residues with minus-strand fragments as long as the record allows"""
+    m = min(n - 2, 2**16 + 40)
+    return [
+        [["F", "L", 1, n, -1, []]],
+        [["F", "L", 2, n - 1, 1, []], ["G", 3, "scaffold"], ["F", "L", 5, 4 + m - 3, -1, ["Painted"]]],
+        [["F", "L", 3, n, -1, []], ["F", "L", 1, n - 7, -1, []]],
+    ]
+
+
+def long_case(n, seed, width, eol):
+    return G.FastaCase([G.Rec("L", long_bytes(n, seed, "iupac"))], min(width, n), b"\r\n" if eol == "CRLF" else b"\n", True)
+
+
+def check_long_stream(path, n, seed, width, eol, bs, jobs=None):
+    """jobs: [(rows, line_length, via)] or None = all -> [(message, classes, rows, line_length, via)], number of checks"""
+    fi = open_case(long_case(n, seed, width, eol), path, bs)
+    out = []
+    count = 0
+    try:
+        if jobs is None:
+            jobs = [(rows, ll, via) for rows, ll in zip(long_stream_rows(n), (60, 61, 60)) for via in ("reverse", -1, 1)]
+        memo = {}
+        for rows, ll, via in jobs:
+            msg, classes = check_stream(fi, rows, ll, via, memo)
+            count += 1
+            if msg:
+                out.append((msg, classes, rows, ll, via))
+    finally:
+        close_index(fi)
+        G.remove_with_caches(path)
+    return out, count
+
+
 def stream_seq(fi, scaffold, line_length, memo=None):
     """(name, residues) of the record written for the scaffold.  memo (one per file / buffer size / line length):
     scaffolds with the same name and rows are streamed once, so that the three ways of reversing one scaffold,
@@ -271,6 +390,15 @@ def replay(inp):
     if inp["kind"] == "bytes":
         m = check_involution(bytes(inp["bytes"]))
         return m[0] if m else None
+    if inp["kind"] == "long-bytes":
+        m = check_long_bytes(inp["length"], inp["seed"], inp["alphabet"])
+        return m[0] if m else None
+    if inp["kind"] == "long-stream":
+        with G.quiet_logging(), G.workdir() as d:
+            found, _ = check_long_stream(
+                d / "r.fa", inp["length"], inp["seed"], inp["width"], inp["eol"], inp["buffer"], [(inp["rows"], inp["line_length"], inp["via"])]
+            )
+            return found[0][0] if found else None
     with G.quiet_logging(), G.workdir() as d:
         case = G.FastaCase.from_spec(inp["case"])
         fi = open_case(case, d / "r.fa", inp["buffer"])
@@ -288,7 +416,9 @@ def run(tier, seed, **opts):
         f"reverse: every sequence of 0..{max_rows} rows from a pool of {len(POOL)} (strands +,-,?; tags; gaps incl. length 0); "
         "overlap result: the same row sequences x bait strand +,-,? (bait tags and overhangs rotating), to_scaffold() against the "
         "model reversal (minus bait) or the rows unchanged; "
-        "complement: 256 byte values, all 1- and 2-byte strings, random byte strings; streaming: FASTA files with mixed-case "
+        "complement: 256 byte values, all 1- and 2-byte strings, random byte strings, long byte strings with lengths around powers "
+        "of two and typical block sizes (2**12+1 .. 2**20+3; thorough to 2**24+5); streaming: long records with minus-strand "
+        "fragments longer than 2**16 and buffers larger than that; FASTA files with mixed-case "
         "IUPAC and non-IUPAC residues in several layouts x scaffolds of 1..3 rows from a pool of intervals x strands +,-,? "
         "and gaps x buffer sizes x line lengths, and random scaffolds over random files, each reversed three ways: "
         "scaffold.reverse(), to_scaffold() of an overlap result with a minus-strand bait (both: reverse complement expected), "
@@ -344,9 +474,40 @@ def run(tier, seed, **opts):
             col.fail(msgs[0], inp)
         col.case(("bytes", s), nontrivial=n > 0, sample=inp if k == 4 else None)
 
+    # 2b. long byte strings
+    lengths = long_lengths(quick, rng)
+    for n in lengths:
+        for alphabet in ("bytes", "iupac") if (not quick or n in (2**16 + 17, 2**17 + 5)) else (("bytes", "iupac")[n % 2],):
+            inp = {"kind": "long-bytes", "length": n, "seed": seed, "alphabet": alphabet}
+            for m in check_long_bytes(n, seed, alphabet)[:1]:
+                col.fail(m, inp)
+            col.case(("long-bytes", n, seed, alphabet), sample=inp if n == 2**16 + 17 and alphabet == "iupac" else None)
+
     # 3. streaming a reversed scaffold
     with G.quiet_logging(), G.workdir() as d:
         path = d / "t.fa"
+        # 3a. long minus-strand fragments, buffers larger than the usual block sizes
+        if quick:
+            long_jobs = [(2**17 + 5, 60, "LF", (2**16 + 17, 250_000))]
+        else:
+            long_jobs = [
+                (2**16 + 1, 60, "LF", (2**16 + 1, 250_000)),
+                (2**17 + 5, 60, "LF", (2**12 + 1, 2**16, 2**16 + 17, 100_000, 2**17 + 4, 250_000)),
+                (300_007, 61, "CRLF", (2**16 + 1, 250_000, 300_007)),
+                (2**17 + 5, 10**9, "LF", (2**16 + 17, 250_000)),
+                (2**20 + 3, 80, "LF", (250_000, 2**20 + 3, 2**21)),
+            ]
+        for n, width, eol, buffers in long_jobs:
+            for bs in buffers:
+                found, count = check_long_stream(path, n, seed, width, eol, bs)
+                for msg, classes, rows, ll, via in found[:2]:
+                    col.fail(
+                        f"record of {n} residues, buffer_size {bs}: {msg}",
+                        {"kind": "long-stream", "length": n, "seed": seed, "width": width, "eol": eol, "buffer": bs, "rows": rows, "line_length": ll, "via": via},
+                        classes,
+                    )
+                for i in range(count):
+                    col.case(("long-stream", n, seed, width, eol, bs, i))
         r1 = b"AcgRtNnYKtGCUuXx-*MmSsWwHhBbVvDd"
         r2 = b"tTGmcAA"
         lays = [(4, b"\n", True), (5, b"\r\n", False), (60, b"\n", True), (1, b"\n", False), (7, b"\r\n", True)]
@@ -430,7 +591,10 @@ def run(tier, seed, **opts):
     return col.result(
         bounds=(
             f"reverse: {len(POOL)}-row pool, sequences of 0..{max_rows}; overlap result: the same sequences x 3 bait strands; complement: exhaustive over 256 values and 65792 short strings, "
-            f"{2000 if quick else 50000} random strings up to 200 bytes; streaming: 2-record file (32 and 7 residues) in {len(lays)} layouts, "
+            f"{2000 if quick else 50000} random strings up to 200 bytes, {len(lengths)} long strings of {min(lengths)}..{max(lengths)} bytes "
+            "(lengths around powers of two / block sizes); streaming: one-record files of "
+            + ("131077 residues" if quick else "65537..1048579 residues")
+            + " with long minus-strand fragments and buffers > 2**16; 2-record file (32 and 7 residues) in {len(lays)} layouts, "
             "18 fragment rows + 3 gaps, all 1- and 2-row scaffolds and a fixed share of the 3-row ones, buffers "
             + ("1,3,5,250000" if quick else "1,2,3,4,5,7,8,31,32,33,250000")
             + f"; {150 if quick else 5000} random files x 8 random scaffolds; every streamed scaffold via reverse(), minus bait, plus-or-unknown bait"
